@@ -33,15 +33,15 @@ Definition detached (cbuf message nonce key : bytes) : outcome (bytes * bytes) :
   if (length cbuf <? length message)%nat then Panic   (* ciphertext[..message.len()] *)
   else Ok (detached_inplace (message ++ skipn (length message) cbuf) nonce key).
 
-(* crypto_secretbox_open_detached(message, mac, ciphertext, nonce, key);
-   on Err the copied ciphertext is wiped from the caller's buffer *)
+(* crypto_secretbox_open_detached(message, mac, ciphertext, nonce, key): only message[..ciphertext.len()] is used
+   (fix: commit in /repo; before it the whole message buffer was authenticated and decrypted, so the bytes of a longer
+   buffer took part in the authenticator); on Err the copied ciphertext is wiped from the caller's buffer *)
 Definition open_detached (mbuf mac ciphertext nonce key : bytes) : outcome unit * bytes :=
   let c_len := length ciphertext in
   if (length mbuf <? c_len)%nat then (Panic, mbuf)
   else
-    let buf := ciphertext ++ skipn c_len mbuf in
-    match open_detached_inplace buf mac nonce key with
-    | (Ok _, b) => (Ok tt, b)
+    match open_detached_inplace ciphertext mac nonce key with
+    | (Ok _, b) => (Ok tt, b ++ skipn c_len mbuf)
     | (_, _) => (Err, zeros c_len ++ skipn c_len mbuf)
     end.
 
